@@ -13,3 +13,4 @@ import Grenad.Model.Spec
 import Grenad.Model.Varint
 import Grenad.Model.Writer
 import Grenad.Model.WriterIO
+import Grenad.Model.EntriesBytes
